@@ -7,6 +7,7 @@ package main
 import (
 	"fmt"
 	"strings"
+	"sync"
 	"time"
 
 	ristretto "github.com/dgraph-io/ristretto/v2"
@@ -124,19 +125,22 @@ func runC01(c *Ctx) {
 		}
 		rng := lab.NewRNG(c.Seed, 100000+uint64(i))
 		kind := allKeyKinds[i%len(allKeyKinds)]
+		if i%8 == 5 {
+			kind = []string{"bytes-short", "string-short"}[(i/8)%2] // default hashing of short keys that differ only in trailing zero bytes
+		}
 		nk := lab.Pick(rng, []int{4, 8, 16, 64})
 		if kind == "byte" && nk > 200 {
 			nk = 64
 		}
 		collide := 0
-		if i%2 == 1 {
+		if i%2 == 1 && i%8 != 5 {
 			collide = lab.Pick(rng, []int{1, 2, 4})
 		}
 		capacity := lab.Pick(rng, []int64{int64(nk) * 4, int64(nk), int64(max(1, nk/4))})
 		o := stressOpts{
 			Name: fmt.Sprintf("c01-%s-collide%d-nk%d-cap%d", kind, collide, nk, capacity),
 			Cfg: lab.CacheCfg{NumCounters: int64(nk * 10), MaxCost: capacity, BufferItems: lab.Pick(rng, []int64{1, 8, 64}), IgnoreInternalCost: true,
-				KeyKind: kind, Collide: collide, NKeys: nk, TTLTick: 1, SetBuf: lab.Pick(rng, []int{0, 0, 64, 4})},
+				KeyKind: kind, Collide: collide, NKeys: nk, TTLTick: 1, SetBuf: lab.Pick(rng, []int{0, 0, 64, 4}), AllowHashDup: i%8 == 5},
 			Workers: lab.Pick(rng, []int{2, 4, 8, 16, 64}), Probers: 1, OpsPerPhase: 0, Phases: 2,
 			Mix: baseMix(), TTLsMs: []int{1, 5, 20, 50}, CostMode: "one", DelayLevel: float64(rng.Intn(3)) * 0.5,
 			EndWith: "close", Stream: uint64(i),
@@ -460,6 +464,19 @@ func init() { registry["C03D"] = runC03Directed }
 // runC03Directed fills a cache exactly with n unit-cost residents (optionally with access frequencies), then
 // sets one newcomer of cost c (1..MaxCost and MaxCost+1) and checks the accounting after Wait.
 func runC03Directed(c *Ctx) {
+	ristretto.VerifSetBucketSeconds(1)
+	if c.Part == 0 {
+		var wg sync.WaitGroup
+		n := uint64(0)
+		for _, c0 := range []int64{0, 1, 5} {
+			for _, c1 := range []int64{1, 9, 50} {
+				n++
+				wg.Add(1)
+				go func(c0, c1 int64, n uint64) { defer wg.Done(); c03ExpiredReset(c, c0, c1, n) }(c0, c1, n)
+			}
+		}
+		defer wg.Wait()
+	}
 	c.R.Rule = "directed: cache filled exactly with n residents of cost 1 (n = MaxCost in {8, 40, 100}), optionally hot residents, then one newcomer of cost c for every c in 1..MaxCost+1; after Wait: RemainingCost() >= 0, == MaxCost - sum of accounted costs, newcomer admitted only if its cost <= MaxCost; distinct by (MaxCost, c, hot residents, internal cost)"
 	idx := 0
 	for _, m := range []int{8, 40, 100} {
@@ -519,4 +536,82 @@ func runC03Directed(c *Ctx) {
 			}
 		}
 	}
+}
+
+// c03ExpiredReset: a key with cost c0 (incl. 0) and a short TTL expires and is swept; the same key is then set with
+// a different cost c1 on a nearly full cache. Nothing is raised for a resident key, so the accounting must stay
+// within MaxCost and agree with the resident entries.
+func c03ExpiredReset(c *Ctx, c0, c1 int64, stream uint64) {
+	c.R.Eval(1)
+	name := fmt.Sprintf("c03d-expired-reset-c0=%d-c1=%d", c0, c1)
+	c.J.Case(name)
+	const m = 100
+	l, err := lab.NewLab(lab.CacheCfg{NumCounters: 2000, MaxCost: m, BufferItems: 1, IgnoreInternalCost: true, KeyKind: "uint64", NKeys: 200, TTLTick: 1})
+	if err != nil {
+		c.R.Inconc(1)
+		return
+	}
+	defer l.Forget()
+	cl := l.NewClient()
+	defer l.C.Close()
+	sweeps := make(chan struct{}, 64)
+	l.SetHook(func(point int, arg uint64) {
+		if point == ristretto.VPSweepDone {
+			select {
+			case sweeps <- struct{}{}:
+			default:
+			}
+		}
+	})
+	// residents: 90 unit-cost keys (keys 1..90); the TTL key is key 0
+	for k := 1; k <= 90; k++ {
+		cl.Set(k, cl.NextVal(k), 1, 0)
+	}
+	cl.Set(0, cl.NextVal(0), c0, 300*time.Millisecond)
+	cl.Wait()
+	// wait until the entry has been swept (bounded: 8 sweeps = 4 s)
+	gone := false
+	for i := 0; i < 8 && !gone; i++ {
+		select {
+		case <-sweeps:
+		case <-time.After(3 * time.Second):
+		}
+		l.C.Pause()
+		sn := l.C.Snapshot()
+		l.C.Resume()
+		gone = true
+		for _, en := range sn.Entries {
+			if en.Key == l.Hashes[0][0] {
+				gone = false
+			}
+		}
+	}
+	if !gone {
+		c.R.Inconc(1)
+		return
+	}
+	l.C.Increment(l.Hashes[0][0], 8) // not colder than the residents: it is not simply turned away
+	cl.Set(0, cl.NextVal(0), c1, 0)
+	cl.Wait()
+	l.C.Pause()
+	sn := l.C.Snapshot()
+	rc := l.C.RemainingCost()
+	l.C.Resume()
+	var resident int64
+	for _, en := range sn.Entries {
+		k := l.HashIdx[en.Key]
+		if k == 0 {
+			resident += c1
+		} else {
+			resident++
+		}
+	}
+	if rc < 0 {
+		c.R.Violate("C03/negative-remaining", fmt.Sprintf("[%s] a key with cost %d and a ttl expired and was swept; setting it again with cost %d on a nearly full cache left RemainingCost()=%d", name, c0, c1, rc), name)
+	}
+	if rc != sn.MaxCost-resident {
+		c.R.Violate("C03/remaining-vs-resident-costs", fmt.Sprintf("[%s] RemainingCost()=%d but MaxCost - sum of the costs of the resident entries = %d - %d", name, rc, sn.MaxCost, resident), name)
+	}
+	c.R.Obs("directed_expired_reset_cases", 1)
+	c.R.DistinctKey("%s", name)
 }
